@@ -292,10 +292,19 @@ func r10_9(c *Ctx, rule string) {
 	x := c.explorer(lit)
 	// the stack: a captured slice of visitedDir
 	// (a captured variable, or a field of a captured state object)
+	// (possibly of a named slice type with a push method: then the cell is
+	// the method's pointer receiver)
 	isStackCell := func(v ssa.Value) bool {
 		switch v.(type) {
-		case *ssa.FreeVar, *ssa.FieldAddr:
-			return strings.HasSuffix(eng.TypeStr(v.Type()), "*[]fsutil.visitedDir")
+		case *ssa.FreeVar, *ssa.FieldAddr, *ssa.Parameter:
+			if strings.HasSuffix(eng.TypeStr(v.Type()), "*[]fsutil.visitedDir") {
+				return true
+			}
+			if pt, ok := v.Type().Underlying().(*types.Pointer); ok {
+				if sl, isSl := pt.Elem().Underlying().(*types.Slice); isSl {
+					return strings.HasSuffix(eng.TypeStr(sl.Elem()), "fsutil.visitedDir")
+				}
+			}
 		}
 		return false
 	}
@@ -708,11 +717,36 @@ func r10_4(c *Ctx, rule string) {
 		}
 		c.R.Check(isFieldLoad(a[0], "types.Stat.Path") && c.DerivesFrom(a[0], func(v ssa.Value) bool { return v == X }, 3), rule, con+"/reported-path", c.pos(call), "reported under the stat's own path", "the entry is not reported under its stat's Path")
 		var mapCalls []*ssa.Call
+		innerMap := map[*ssa.Call]*ssa.Call{}
 		for _, mc := range c.P.CallsTo(lit, "field:fsutil.filterFS.mapFn") {
 			if cl, ok := mc.(*ssa.Call); ok && cl.Call.Args[1] == X {
 				mapCalls = append(mapCalls, cl)
 			}
 		}
+		// the map function may be asked through a helper of the module that
+		// hands it its own parameter (`fs.mapVerdict(stat)`): the call of the
+		// helper with X is then the application to X
+		eng.InstrsShallow(lit, func(in ssa.Instruction) {
+			hc, ok := in.(*ssa.Call)
+			if !ok {
+				return
+			}
+			h := hc.Common().StaticCallee()
+			if h == nil || !c.P.InModule(h) || len(h.Params) != len(hc.Call.Args) {
+				return
+			}
+			for j, a := range hc.Call.Args {
+				if a != X {
+					continue
+				}
+				for _, mc := range c.P.CallsTo(h, "field:fsutil.filterFS.mapFn") {
+					if cl, isC := mc.(*ssa.Call); isC && cl.Parent() == h && eng.Strip(cl.Call.Args[1]) == ssa.Value(h.Params[j]) {
+						mapCalls = append(mapCalls, hc)
+						innerMap[hc] = cl
+					}
+				}
+			}
+		})
 		if len(mapCalls) == 0 {
 			c.R.Fail(rule, con+"/mapped-first", c.pos(call), "the map function is never applied to the stat that is reported here")
 			continue
@@ -727,7 +761,11 @@ func r10_4(c *Ctx, rule string) {
 		}
 		c.ObPrecedes(rule, con+"/mapped-first", lit, set, isMap, func(in ssa.Instruction) bool { return in == ssa.Instruction(call) }, "mapFn on the same stat", "the report")
 		for _, m := range mapCalls {
-			c.R.Check(isFieldLoad(m.Call.Args[0], "types.Stat.Path"), rule, c.siteName(m)+"/path-arg", c.pos(m), "mapFn(X.Path, X)", "the map function is not given the stat's own path")
+			pathArg := m.Call.Args[0]
+			if in, viaHelper := innerMap[m]; viaHelper {
+				pathArg = in.Call.Args[0]
+			}
+			c.R.Check(isFieldLoad(pathArg, "types.Stat.Path"), rule, c.siteName(m)+"/path-arg", c.pos(m), "mapFn(X.Path, X)", "the map function is not given the stat's own path")
 			for _, res := range []string{"MapResultExclude", "MapResultSkipDir"} {
 				// find the comparison of this call's result with the constant
 				var keys []string
@@ -775,18 +813,39 @@ func r10_4(c *Ctx, rule string) {
 	// that causes the reports (an entry the map function drops must not leave
 	// its ancestors behind)
 	var ownMaps []*ssa.Call
-	for _, mc := range c.P.CallsTo(lit, "field:fsutil.filterFS.mapFn") {
-		cl, ok := mc.(*ssa.Call)
-		if !ok || len(lit.Params) < 2 {
-			continue
-		}
-		if c.DerivesFrom(cl.Call.Args[1], func(v ssa.Value) bool {
-			ic, isC := v.(*ssa.Call)
+	isOwnStat := func(v ssa.Value) bool {
+		return len(lit.Params) >= 2 && c.DerivesFrom(v, func(y ssa.Value) bool {
+			ic, isC := y.(*ssa.Call)
 			return isC && ic.Common().IsInvoke() && ic.Common().Method.Name() == "Info" && eng.Strip(ic.Common().Value) == ssa.Value(lit.Params[1])
-		}, 6) {
-			ownMaps = append(ownMaps, cl)
-		}
+		}, 6)
 	}
+	eng.InstrsShallow(lit, func(in ssa.Instruction) {
+		cl, ok := in.(*ssa.Call)
+		if !ok {
+			return
+		}
+		if c.P.IsCallTo(cl, "field:fsutil.filterFS.mapFn") {
+			if isOwnStat(cl.Call.Args[1]) {
+				ownMaps = append(ownMaps, cl)
+			}
+			return
+		}
+		// asked through a helper that hands the map function its parameter
+		h := cl.Common().StaticCallee()
+		if h == nil || !c.P.InModule(h) || len(h.Params) != len(cl.Call.Args) {
+			return
+		}
+		for j, a := range cl.Call.Args {
+			if !isOwnStat(a) {
+				continue
+			}
+			for _, mc := range c.P.CallsTo(h, "field:fsutil.filterFS.mapFn") {
+				if ic, isC := mc.(*ssa.Call); isC && ic.Parent() == h && eng.Strip(ic.Call.Args[1]) == ssa.Value(h.Params[j]) {
+					ownMaps = append(ownMaps, cl)
+				}
+			}
+		}
+	})
 	if len(ownMaps) == 0 {
 		c.R.OK(rule, c.name(lit)+"/own-verdict-first", c.P.Pos(lit.Pos()), "no map call on the stat of the callback's own entry of a shape this rule interprets")
 	} else {
